@@ -36,6 +36,8 @@ ArrV(a)   == [t |-> "arr", a |-> a]
 ObjV(o)   == [t |-> "obj", o |-> o, uo |-> FALSE]   \* uo: key order not fixed by the manual (after a deleting update)
 ObjU(o, u) == [t |-> "obj", o |-> o, uo |-> u]
 IErr      == [t |-> "ierr"]
+\* the manual leaves a choice: any of these values (only ever the outermost constructor of an output)
+OneOf(alts) == [t |-> "oneof", alts |-> alts]
 
 Fail(v)   == [t |-> "FAIL", v |-> v]
 IFail     == Fail(IErr)
@@ -47,7 +49,16 @@ IsVal(r)  == r.t \notin {"FAIL", "UNK"}
 True  == Bool(TRUE)
 False == Bool(FALSE)
 
-IsNum(v) == v.t \in {"int", "flt"}
+\* number representations: machine integer, big integer (digits; here only of small value), float p/q,
+\* negative zero, +-infinity, decimal literal (kept as text until calculated with)
+NZero     == [t |-> "nz"]
+Inf       == [t |-> "fsp", k |-> "inf"]
+NInf      == [t |-> "fsp", k |-> "ninf"]
+NaN       == [t |-> "fsp", k |-> "nan"]
+BigV(neg, d) == [t |-> "big", neg |-> neg, d |-> d]
+DecV(ds)  == [t |-> "dec", ds |-> ds]
+IsNum(v) == v.t \in {"int", "flt", "nz", "fsp", "big", "dec"}
+IsInt(v) == v.t \in {"int", "big"}
 IsStr(v) == v.t \in {"str", "bytes"}
 
 \* boolean value of a value
@@ -71,13 +82,43 @@ MkFlt(p, q) ==
            qq == (s * q) \div g
        IN IF IsPow2(qq) /\ Abs(pp) < 1000000 THEN FltV(pp, qq) ELSE Unk
 
-NumP(v) == IF v.t = "int" THEN v.n ELSE v.p
-NumQ(v) == IF v.t = "int" THEN 1 ELSE v.q
+RECURSIVE DigitsVal(_, _)
+DigitsVal(d, acc) == IF d = <<>> THEN acc ELSE DigitsVal(Tail(d), acc * 10 + Head(d))
+RECURSIVE Pow10(_)
+Pow10(n) == IF n = 0 THEN 1 ELSE 10 * Pow10(n - 1)
+
+\* value of a decimal literal [-]digits[.digits][e[+-]digits] as a fraction <<p, q>>
+DecFrac(ds) ==
+  LET neg == ds # <<>> /\ ds[1] = 45
+      body == IF neg THEN Tail(ds) ELSE ds
+      IsDig(c) == c >= 48 /\ c <= 57
+      epos == LET A == {i \in 1..Len(body) : body[i] \in {101, 69}} IN IF A = {} THEN Len(body) + 1 ELSE CHOOSE i \in A : TRUE
+      mant == SubSeq(body, 1, epos - 1)
+      dpos == LET A == {i \in 1..Len(mant) : mant[i] = 46} IN IF A = {} THEN Len(mant) + 1 ELSE CHOOSE i \in A : TRUE
+      ip == SubSeq(mant, 1, dpos - 1)
+      fp == SubSeq(mant, dpos + 1, Len(mant))
+      digs == [i \in 1..(Len(ip) + Len(fp)) |-> (IF i <= Len(ip) THEN ip[i] ELSE fp[i - Len(ip)]) - 48]
+      ex == IF epos > Len(body) THEN 0
+            ELSE LET e == SubSeq(body, epos + 1, Len(body))
+                     eneg == e # <<>> /\ e[1] = 45
+                     ed == IF e # <<>> /\ e[1] \in {43, 45} THEN Tail(e) ELSE e
+                     ev == DigitsVal([i \in 1..Len(ed) |-> ed[i] - 48], 0)
+                 IN IF eneg THEN -ev ELSE ev
+      sc == ex - Len(fp)
+      m == DigitsVal(digs, 0) * (IF neg THEN -1 ELSE 1)
+  IN IF sc >= 0 THEN << m * Pow10(sc), 1 >> ELSE << m, Pow10(-sc) >>
+
+BigVal(v) == DigitsVal(v.d, 0) * (IF v.neg THEN -1 ELSE 1)
+
+\* finite numbers as fractions
+IsFin(v) == v.t \in {"int", "flt", "nz", "big", "dec"}
+NumP(v) == CASE v.t = "int" -> v.n [] v.t = "flt" -> v.p [] v.t = "nz" -> 0 [] v.t = "big" -> BigVal(v) [] v.t = "dec" -> DecFrac(v.ds)[1]
+NumQ(v) == CASE v.t = "int" -> 1 [] v.t = "flt" -> v.q [] v.t = "nz" -> 1 [] v.t = "big" -> 1 [] v.t = "dec" -> DecFrac(v.ds)[2]
 
 \* does the value contain an internal-error message somewhere?
 RECURSIVE HasIErr(_)
 HasIErr(v) ==
-  CASE v.t = "ierr" -> TRUE
+  CASE v.t \in {"ierr", "fx", "oneof"} -> TRUE     \* opaque to the specification: nothing is computed from them
     [] v.t = "arr" -> \E i \in 1..Len(v.a) : HasIErr(v.a[i])
     [] v.t = "obj" -> \E i \in 1..Len(v.o) : HasIErr(v.o[i][1]) \/ HasIErr(v.o[i][2])
     [] OTHER -> FALSE
@@ -101,7 +142,7 @@ BytesOf(v) == IF v.t = "str" THEN Utf8(v.c) ELSE v.y
 Rank(v) ==
   CASE v.t = "null" -> 0
     [] v.t = "bool" -> 1
-    [] v.t \in {"int", "flt"} -> 2
+    [] v.t \in {"int", "flt", "nz", "fsp", "big", "dec"} -> 2
     [] v.t \in {"str", "bytes"} -> 3
     [] v.t = "arr" -> 4
     [] v.t = "obj" -> 5
@@ -120,7 +161,7 @@ RECURSIVE Cmp(_, _), LexVal(_, _), InsertKV(_, _), SortKV(_)
 \* insertion sort of key/value pairs by key (keys of an object are distinct)
 InsertKV(kv, s) ==
   IF s = <<>> THEN << kv >>
-  ELSE IF Cmp(kv[1], Head(s)[1]) < 0 THEN << kv >> \o s
+  ELSE IF Cmp(kv[1], Head(s)[1]) <= 0 THEN << kv >> \o s
   ELSE << Head(s) >> \o InsertKV(kv, Tail(s))
 SortKV(s) == IF s = <<>> THEN <<>> ELSE InsertKV(Head(s), SortKV(Tail(s)))
 
@@ -133,7 +174,14 @@ Cmp(x, y) ==
   IF Rank(x) # Rank(y) THEN Sgn(Rank(x) - Rank(y))
   ELSE CASE x.t = "null" -> 0
          [] x.t = "bool" -> Sgn((IF x.b THEN 1 ELSE 0) - (IF y.b THEN 1 ELSE 0))
-         [] IsNum(x) -> Sgn(NumP(x) * NumQ(y) - NumP(y) * NumQ(x))
+         [] IsNum(x) ->
+              \* NaN < -Infinity < finite < Infinity; NaN is smaller than any number, including itself
+              IF x.t = "fsp" /\ x.k = "nan" THEN -1
+              ELSE IF y.t = "fsp" /\ y.k = "nan" THEN 1
+              ELSE LET lvl(v) == IF v.t = "fsp" THEN (IF v.k = "inf" THEN 2 ELSE 0) ELSE 1
+                   IN IF lvl(x) # lvl(y) THEN Sgn(lvl(x) - lvl(y))
+                      ELSE IF lvl(x) # 1 THEN 0
+                      ELSE Sgn(NumP(x) * NumQ(y) - NumP(y) * NumQ(x))
          [] IsStr(x) -> LexInt(BytesOf(x), BytesOf(y))
          [] x.t = "arr" -> LexVal(x.a, y.a)
          [] x.t = "obj" ->
@@ -149,9 +197,9 @@ Lt(x, y) == Cmp(x, y) < 0
 RECURSIVE InsertV(_, _), SortV(_)
 InsertV(v, s) ==
   IF s = <<>> THEN << v >>
-  ELSE IF Cmp(v, Head(s)) < 0 THEN << v >> \o s
+  ELSE IF Cmp(v, Head(s)) <= 0 THEN << v >> \o s
   ELSE << Head(s) >> \o InsertV(v, Tail(s))
-\* inserting from the right end keeps equal elements in input order
+\* the head is inserted before the equal elements of the (already sorted) tail: stable
 SortV(s) == IF s = <<>> THEN <<>> ELSE InsertV(Head(s), SortV(Tail(s)))
 
 -----------------------------------------------------------------------------
@@ -185,10 +233,11 @@ Length(v) == Len(Elems(v))
 \* absolute slice bound, clipped; b is Null or an int value
 Bound(b, len, default) ==
   IF b.t = "null" THEN default
-  ELSE LET a == IF b.n < 0 THEN len + b.n ELSE b.n
+  ELSE LET n == NumP(b)
+           a == IF n < 0 THEN len + n ELSE n
        IN Min(Max(a, 0), len)
 
-IsBound(b) == b.t \in {"null", "int"}
+IsBound(b) == b.t \in {"null", "int", "big"}
 
 SliceSeq(s, i, j) ==
   LET from == Bound(i, Len(s), 0)
@@ -219,9 +268,10 @@ Index(v, k) ==
     [] v.t = "obj" -> ObjGet(v.o, k)
     [] v.t \in {"arr", "str", "bytes"} /\ k.t = "obj" ->
          Slice(v, ObjGet(k.o, StrV(<<115,116,97,114,116>>)), ObjGet(k.o, StrV(<<101,110,100>>)))
-    [] v.t \in {"arr", "bytes"} /\ k.t = "int" ->
+    [] v.t \in {"arr", "bytes"} /\ IsInt(k) ->
          LET len == Length(v)
-             a == IF k.n < 0 THEN len + k.n ELSE k.n
+             n == NumP(k)
+             a == IF n < 0 THEN len + n ELSE n
          IN IF a < 0 \/ a >= len THEN Null
             ELSE IF v.t = "arr" THEN v.a[a + 1] ELSE IntV(v.y[a + 1])
     [] v.t = "arr" /\ k.t = "arr" ->
@@ -242,13 +292,16 @@ CanIter(v) == v.t \in {"arr", "obj"}
 \* has($k): true exactly when .[$k] points into the value
 Has(v, k) ==
   CASE v.t = "obj" -> Bool(ObjHas(v.o, k))
-    [] v.t \in {"arr", "bytes"} /\ k.t = "int" ->
-         LET len == Length(v)  a == IF k.n < 0 THEN len + k.n ELSE k.n
+    [] v.t \in {"arr", "bytes"} /\ IsInt(k) ->
+         LET len == Length(v)  n == NumP(k)  a == IF n < 0 THEN len + n ELSE n
          IN Bool(a >= 0 /\ a < len)
     [] OTHER -> IFail
 
 -----------------------------------------------------------------------------
 (* arithmetic (manual, "Binary (simple)") *)
+\* numbers whose arithmetic the specification computes exactly (no IEEE special cases)
+PlainNum(v) == v.t \in {"int", "flt", "big"} \/ (v.t = "dec")
+
 RECURSIVE RepSeq(_, _)
 RepSeq(s, n) == IF n <= 0 THEN <<>> ELSE s \o RepSeq(s, n - 1)
 
@@ -279,30 +332,30 @@ SameStrKind(x, y) == (x.t = "str" /\ y.t = "str") \/ (x.t = "bytes" /\ y.t = "by
 Add(x, y) ==
   CASE x.t = "null" -> y
     [] y.t = "null" -> x
-    [] x.t = "int" /\ y.t = "int" -> IntV(x.n + y.n)
-    [] IsNum(x) /\ IsNum(y) -> MkFlt(NumP(x) * NumQ(y) + NumP(y) * NumQ(x), NumQ(x) * NumQ(y))
+    [] IsInt(x) /\ IsInt(y) -> IntV(NumP(x) + NumP(y))
+    [] IsNum(x) /\ IsNum(y) -> IF PlainNum(x) /\ PlainNum(y) THEN MkFlt(NumP(x) * NumQ(y) + NumP(y) * NumQ(x), NumQ(x) * NumQ(y)) ELSE Unk
     [] SameStrKind(x, y) -> Rewrap(x, Elems(x) \o Elems(y))
     [] x.t = "arr" /\ y.t = "arr" -> ArrV(x.a \o y.a)
     [] x.t = "obj" /\ y.t = "obj" -> ObjU(ObjPutAll(x.o, y.o), x.uo \/ y.uo)
     [] OTHER -> IFail
 
 Sub(x, y) ==
-  CASE x.t = "int" /\ y.t = "int" -> IntV(x.n - y.n)
-    [] IsNum(x) /\ IsNum(y) -> MkFlt(NumP(x) * NumQ(y) - NumP(y) * NumQ(x), NumQ(x) * NumQ(y))
+  CASE IsInt(x) /\ IsInt(y) -> IntV(NumP(x) - NumP(y))
+    [] IsNum(x) /\ IsNum(y) -> IF PlainNum(x) /\ PlainNum(y) THEN MkFlt(NumP(x) * NumQ(y) - NumP(y) * NumQ(x), NumQ(x) * NumQ(y)) ELSE Unk
     [] x.t = "arr" /\ y.t = "arr" -> ArrV(RemoveAll(x.a, y.a))
     [] OTHER -> IFail
 
 Mul(x, y) ==
-  CASE x.t = "int" /\ y.t = "int" -> IntV(x.n * y.n)
-    [] IsNum(x) /\ IsNum(y) -> MkFlt(NumP(x) * NumP(y), NumQ(x) * NumQ(y))
-    [] IsStr(x) /\ y.t = "int" -> IF y.n <= 0 THEN Null ELSE Rewrap(x, RepSeq(Elems(x), y.n))
-    [] x.t = "int" /\ IsStr(y) -> IF x.n <= 0 THEN Null ELSE Rewrap(y, RepSeq(Elems(y), x.n))
+  CASE IsInt(x) /\ IsInt(y) -> IntV(NumP(x) * NumP(y))
+    [] IsNum(x) /\ IsNum(y) -> IF PlainNum(x) /\ PlainNum(y) THEN MkFlt(NumP(x) * NumP(y), NumQ(x) * NumQ(y)) ELSE Unk
+    [] IsStr(x) /\ IsInt(y) -> IF NumP(y) <= 0 THEN Null ELSE Rewrap(x, RepSeq(Elems(x), NumP(y)))
+    [] IsInt(x) /\ IsStr(y) -> IF NumP(x) <= 0 THEN Null ELSE Rewrap(y, RepSeq(Elems(y), NumP(x)))
     [] x.t = "obj" /\ y.t = "obj" -> ObjU(Merge(x.o, y.o), x.uo \/ y.uo)
     [] OTHER -> IFail
 
 Div(x, y) ==
   CASE IsNum(x) /\ IsNum(y) ->
-         IF NumP(y) = 0 THEN Unk   \* IEEE: nan / +-infinite, outside the core fragment
+         IF ~(PlainNum(x) /\ PlainNum(y)) \/ NumP(y) = 0 THEN Unk   \* IEEE: nan / +-infinite, outside the core fragment
          ELSE MkFlt(NumP(x) * NumQ(y), NumQ(x) * NumP(y))
     [] SameStrKind(x, y) ->
          IF Elems(x) = <<>> THEN ArrV(<<>>)
@@ -315,13 +368,16 @@ Div(x, y) ==
 TRem(a, b) == LET r == Abs(a) % Abs(b) IN IF a < 0 THEN -r ELSE r
 
 Rem(x, y) ==
-  CASE x.t = "int" /\ y.t = "int" -> IF y.n = 0 THEN IFail ELSE IntV(TRem(x.n, y.n))
+  CASE IsInt(x) /\ IsInt(y) -> IF NumP(y) = 0 THEN IFail ELSE IntV(TRem(NumP(x), NumP(y)))
     [] IsNum(x) /\ IsNum(y) -> Unk   \* float remainder: outside the core fragment
     [] OTHER -> IFail
 
 Neg(x) ==
-  CASE x.t = "int" -> IntV(-x.n)
-    [] x.t = "flt" -> FltV(-x.p, x.q)
+  CASE IsInt(x) -> IntV(-NumP(x))
+    [] x.t = "flt" -> IF x.p = 0 THEN NZero ELSE FltV(-x.p, x.q)
+    [] x.t = "nz" -> FltV(0, 1)
+    [] x.t = "fsp" -> IF x.k = "inf" THEN NInf ELSE IF x.k = "ninf" THEN Inf ELSE Unk
+    [] x.t = "dec" -> Unk
     [] OTHER -> IFail
 
 MathOp(op, x, y) ==
@@ -425,5 +481,10 @@ Ascii(s) == \* TLA+ string literal -> code points, for the few names the spec ne
     [] s = "b" -> << 98 >>
     [] s = "c" -> << 99 >>
     [] s = "x" -> << 120 >>
+    [] s = "p" -> << 112 >>
+    [] s = "q" -> << 113 >>
+    [] s = "k" -> << 107 >>
+    [] s = "v" -> << 118 >>
+    [] s = "d" -> << 100 >>
     [] s = "" -> <<>>
 =============================================================================
